@@ -30,6 +30,8 @@ func main() { hlib.Main("C03", run) }
 func run(c *hlib.Ctx) {
 	runTrees(c)
 	runPrimBounds(c)
+	runPolyCut(c)
+	runPolyVerts(c)
 	runShells(c)
 }
 
